@@ -267,6 +267,24 @@ fn pure_value(kind: i64, p1: i64, p2: i64) -> Vec<u64> {
 }
 
 impl C05 {
+  /// a = [T * 100000]: nutation in longitude vs the independent four-term series (measured agreement 0.47" over +-100
+  /// centuries, `--aux nutscan`); the apparent longitude that defines the terms contains this quantity
+  fn eval_nutation(&self, env: &Env, out: &mut Out, case: &Case) {
+    let t = case.a[0] as f64 / 100000.0;
+    out.eval("nutation");
+    let lib = U::nutation_lon2(t) / ARCSEC;
+    let ind = astro::nutation_lon_arcsec(t);
+    if t.abs() > 30.0 {
+      out.nontrivial("nutation", &case.a);
+    }
+    if out.wants_sample("nutation", t.abs() > 30.0) {
+      out.sample("nutation", t.abs() > 30.0, || json!({"centuries_from_j2000": t, "library_arcsec": lib, "independent_arcsec": ind}));
+    }
+    if !((lib - ind).abs() <= 1.0) {
+      out.fail(env, viol("nutation", "nutation_in_longitude_vs_independent_series", case, &[("t100000", case.a[0])], format!("nutation in longitude at T = {:.5} centuries", t), format!("{:.3}\" within 1\"", ind), format!("{:.3}\"", lib)));
+    }
+  }
+
   /// a = [kind, p1, p2]: the value obtained on this (used) thread equals the value obtained alone on a brand-new thread
   fn eval_pure(&self, env: &Env, out: &mut Out, case: &Case) {
     let (kind, p1, p2) = (case.a[0], case.a[1], case.a[2]);
@@ -298,7 +316,7 @@ impl Prop for C05 {
   }
   fn meta(&self, env: &Env) -> Meta {
     Meta {
-      rule: format!("Sub-checks: `sun` every term (24 x 251) of 1900..2150 through the UT chain (library instant UTC+8 -> UT -> TT with the Espenak-Meeus Delta T) and {} through TT (library's own Delta T, so Delta T models do not enter): Meeus ch.25 apparent longitude at that instant equals 270+15k deg within the theory's accuracy (1800 s + 1 s/cy^2, about twice the measured maximum over every term of -1000..5000), and the library's own longitude series is at the target within 0.1 arcsec; `moon` every lunation of 1900..2150 (with civil-day agreement) and {}: library precise conjunction vs Meeus ch.49 (25 periodic + 14 planetary terms) within 28 s + 0.08 s/cy^2; `pathterm` every term 1961..9999 (192,936): calendar-making day == UTC+8 civil day of the precise instant; `pathmoon` every lunation 1961..8000: first day == civil day of the precise conjunction; `inverse_sun`/`inverse_moon`: all exact multiples of pi/12 resp. 2pi over +-10,000 years and proptest f64 targets: |series(solver(w)) - w| <= 1 arcsec; `dt`: Delta T finite with steps < 6 s per 0.01 y over -4000..10000 ({}); `pure`: proptest queries (term instants, Delta T, day-level and precise solvers) answered on a thread with a long random history are bit-identical to the same query alone on a brand-new thread. Non-trivial: events within 20 (30) minutes of local midnight; exact-multiple targets; Delta T table joins.", env.tier.pick("every term of every 10th year in -1000..5000", "every term of every year in -1000..5000"), env.tier.pick("every 7th lunation of -1000..5000", "every lunation of -1000..5000"), env.tier.pick("every 0.05 y plus +-0.5 y around each table join at 0.01 y", "every 0.01 y")),
+      rule: format!("Sub-checks: `sun` every term (24 x 251) of 1900..2150 through the UT chain (library instant UTC+8 -> UT -> TT with the Espenak-Meeus Delta T) and {} through TT (library's own Delta T, so Delta T models do not enter): Meeus ch.25 apparent longitude at that instant equals 270+15k deg within the theory's accuracy (1800 s + 1 s/cy^2, about twice the measured maximum over every term of -1000..5000), and the library's own longitude series is at the target within 0.1 arcsec; `moon` every lunation of 1900..2150 (with civil-day agreement) and {}: library precise conjunction vs Meeus ch.49 (25 periodic + 14 planetary terms) within 28 s + 0.08 s/cy^2; `pathterm` every term 1961..9999 (192,936): calendar-making day == UTC+8 civil day of the precise instant; `pathmoon` every lunation 1961..8000: first day == civil day of the precise conjunction; `inverse_sun`/`inverse_moon`: all exact multiples of pi/12 resp. 2pi over +-10,000 years and proptest f64 targets: |series(solver(w)) - w| <= 1 arcsec; `dt`: Delta T finite with steps < 6 s per 0.01 y over -4000..10000 ({}); `nutation`: nutation in longitude vs an independent four-term series within 1 arcsec on a grid over +-100 centuries; `pure`: proptest queries (term instants, Delta T, day-level and precise solvers) answered on a thread with a long random history are bit-identical to the same query alone on a brand-new thread. Non-trivial: events within 20 (30) minutes of local midnight; exact-multiple targets; Delta T table joins.", env.tier.pick("every term of every 10th year in -1000..5000", "every term of every year in -1000..5000"), env.tier.pick("every 7th lunation of -1000..5000", "every lunation of -1000..5000"), env.tier.pick("every 0.05 y plus +-0.5 y around each table join at 0.01 y", "every 0.01 y")),
       assumptions: vec![
         "Independent theory: Meeus ch. 25 low-accuracy Sun (0.01 deg), ch. 49 new moons, Espenak-Meeus Delta T; a perturbation of the library below that accuracy (about 15 min Sun, 40 s Moon) is invisible to `sun`/`moon` and only seen by `pathterm`/`pathmoon` when it moves an event across midnight on one path only".into(),
         "Beyond AD 8000 the truncated lunar solver leaves its guard band; the property excludes those lunations from day agreement".into(),
@@ -414,6 +432,16 @@ impl Prop for C05 {
           y100 += nshards as i64;
         }
         out.set_exhaustive("dt", env.tier == Tier::Thorough);
+        // nutation in longitude on a grid over +-100 centuries (the two ends of the grid belong to different shards)
+        {
+          let step = env.tier.pick(3700i64, 370);
+          let mut x = -10_000_000i64 + shard as i64 * step;
+          while x <= 10_000_000 {
+            run_case(env, out, "nutation", &Case::ints(&[x]), &ev);
+            x += step * nshards as i64;
+          }
+          out.set_exhaustive("nutation", false);
+        }
         // order independence: random queries on this thread (which by now has a long history) vs a brand-new thread
         let strat = prop_oneof![
           3 => (1i64..=9999, -2i64..=26).prop_map(|(y, k)| Case::ints(&[0, y, k])),
@@ -428,6 +456,19 @@ impl Prop for C05 {
   }
   fn aux(&self, _env: &Env, name: &str, _arg: &str) -> i32 {
     // calibration aid: maximum lunar inverse-solver residual per millennium over a dense grid of targets
+    if name == "nutscan" {
+      for c0 in (-100i64..100).step_by(10) {
+        let mut mx = 0.0f64;
+        let mut t = c0 as f64;
+        while t < c0 as f64 + 10.0 {
+          let d = (U::nutation_lon2(t) / ARCSEC - astro::nutation_lon_arcsec(t)).abs();
+          if d > mx { mx = d; }
+          t += 0.00137;
+        }
+        println!("centuries {}..{}: max |library - Meeus 4-term| = {:.3} arcsec", c0, c0 + 10, mx);
+      }
+      return 0;
+    }
     if name == "moonres" {
       // calibration aid: maximum |library conjunction - Meeus ch.49| in seconds per 250 years, and the maximum own-series
       // residual of the term instants in arcsec
@@ -526,6 +567,7 @@ impl Prop for C05 {
       "inverse_sun" | "inverse_moon" => self.eval_inverse(env, out, sub, case),
       "dt" => self.eval_dt(env, out, case),
       "pure" => self.eval_pure(env, out, case),
+      "nutation" => self.eval_nutation(env, out, case),
       _ => panic!("unknown sub-check {}", sub),
     }
   }
